@@ -169,6 +169,10 @@ def go_test(work, files, run, env_extra, pkgdir="internal/server", timeout=1800,
     env.update(env_extra)
     if synctest:
         env["GOEXPERIMENT"] = "synctest"
+        # virtual-clock scenarios record event traces whose reading is "one lock region = one step": besides
+        # GOMAXPROCS(1) (set by the harness) goroutines must not be switched by async preemption or at GC safepoints
+        env.setdefault("GODEBUG", "asyncpreemptoff=1")
+        env.setdefault("GOGC", "off")
     cmd = ["go", "test", "-tags", "verif", "-overlay", ov, "-count=1", "-vet=off",
            "-run", run, "-timeout", "%ds" % timeout]
     if race:
